@@ -1,5 +1,6 @@
 import PygVerif.Generated
 import PygVerif.Lemmas.TalRefine
+import PygVerif.Model.Metal
 /-!
 # C17 — simpleTAL executes templates according to TAL/TALES semantics
 
@@ -11,8 +12,12 @@ import PygVerif.Lemmas.TalRefine
   scopes are balanced.
 * `priority_order` — the opcode numbers extracted from simpleTAL (the compiler sorts an
   element's commands by opcode) are in TAL's order.
-METAL (`use-macro`, `define-slot`, `fill-slot`) is not covered by these theorems: the model has
-no program stack; macro expansion is exercised by the oracle only (stated in DESIGN.md).
+METAL (`use-macro`, `define-slot`, `fill-slot`): `Model/Metal.expandMetal` reads macro use as a
+tree substitution into a plain TAL tree; `metal_then_tal_refines` carries the refinement theorem
+over to macro-expanded templates, `metal_free_unchanged` says the substitution leaves TAL-only
+templates alone, and the slot lemmas state the substitution's cases.  That simpleTAL's run-time
+mechanism (program stack, slot maps) produces the document of the substitution is tied by
+differential correspondence, not proved (partial; stated in DESIGN.md).
 -/
 namespace Pyg.Props.C17
 open Pyg Pyg.Tal
@@ -171,6 +176,81 @@ theorem repeat_empty_no_output (py : Str → Val) (orig : List (Str × Str)) (c 
     (hs : seqItems (eval py { ctx with attrs := orig } e) = some []) :
     (repeatPhase py orig c body ctx).1 = [] := by
   simp [repeatPhase, hr, hd, hs]
+
+/-! ### METAL: macro use as tree substitution -/
+
+/-- **Refinement carries over to macros.**  For every macro table, template with METAL
+    annotations and context, the stack machine run on the compiled macro-expanded template
+    yields exactly the denotation of the macro-expanded template. -/
+theorem metal_then_tal_refines (py : Str → Val) (macros : List (Str × MNode)) (fuel : Nat) (t : List MNode) (ctx : Ctx) :
+    ∃ f, expand py f (expandTemplate macros fuel t) ctx = some (denoteList py (expandTemplate macros fuel t) ctx) :=
+  Tal.run_refines_denote py _ ctx
+
+mutual
+def depth : Node → Nat
+  | .data _ => 0
+  | .elem _ _ _ _ _ _ kids => depthList kids + 1
+def depthList : List Node → Nat
+  | [] => 0
+  | k :: ks => max (depth k) (depthList ks)
+end
+
+mutual
+/-- **TAL-only templates are left alone**: with no METAL annotation anywhere, the substitution is
+    the identity (whatever the macro table and the slot map), given fuel beyond the nesting depth -/
+theorem metal_free_node (macros slots : List (Str × MNode)) : ∀ (n : Node) (fuel : Nat), depth n < fuel + 1 →
+    expandMetal macros fuel slots (embed n) = [n]
+  | .data s, _, _ => by simp [embed, expandMetal]
+  | .elem tag atts orig c sg ne kids, 0, h => by simp [depth] at h
+  | .elem tag atts orig c sg ne kids, fuel + 1, h => by
+    have hk : depthList kids < fuel + 1 := by simp [depth] at h; omega
+    simp [embed, expandMetal, metal_free_list macros slots kids fuel hk]
+theorem metal_free_list (macros slots : List (Str × MNode)) : ∀ (ns : List Node) (fuel : Nat), depthList ns < fuel + 1 →
+    expandMetalList macros fuel slots (embedList ns) = ns
+  | [], _, _ => by simp [embedList, expandMetalList]
+  | n :: ns, fuel, h => by
+    have h1 : depth n < fuel + 1 := by simp [depthList] at h; omega
+    have h2 : depthList ns < fuel + 1 := by simp [depthList] at h; omega
+    simp [embedList, expandMetalList, metal_free_node macros slots n fuel h1, metal_free_list macros slots ns fuel h2]
+end
+
+theorem metal_free_unchanged (macros : List (Str × MNode)) (t : List Node) :
+    expandTemplate macros (depthList t) (embedList t) = t :=
+  metal_free_list macros [] t (depthList t) (Nat.lt_succ_self _)
+
+/-- **`use-macro`**: the element is replaced by the macro's own element, expanded with the fillers
+    found below the use site; the use site's tag and content are not output -/
+theorem use_macro_substitutes (macros slots : List (Str × MNode)) (fuel : Nat) (tag : Str) (atts orig : List (Str × Str)) (c : Cmds)
+    (sg ne : Bool) (m : Str) (ds fs : Option Str) (kids : List MNode) (body : MNode) (hm : slotLookup macros m = some body) :
+    expandMetal macros (fuel + 1) slots (.elem tag atts orig c sg ne (some m) ds fs kids) =
+      expandMetal macros fuel (fillersList kids) (stripUse body) := by
+  simp [expandMetal, hm]
+
+/-- a macro expression that names no macro outputs nothing (the element and its content vanish) -/
+theorem unknown_macro_outputs_nothing (macros slots : List (Str × MNode)) (fuel : Nat) (tag : Str) (atts orig : List (Str × Str))
+    (c : Cmds) (sg ne : Bool) (m : Str) (ds fs : Option Str) (kids : List MNode) (hm : slotLookup macros m = none) :
+    expandMetal macros (fuel + 1) slots (.elem tag atts orig c sg ne (some m) ds fs kids) = [] := by
+  simp [expandMetal, hm]
+
+/-- **`define-slot` with a filler**: the filler element stands in for the slot element -/
+theorem filled_slot_is_filler (macros slots : List (Str × MNode)) (fuel : Nat) (tag : Str) (atts orig : List (Str × Str)) (c : Cmds)
+    (sg ne : Bool) (s : Str) (fs : Option Str) (kids : List MNode) (filler : MNode) (hf : slotLookup slots s = some filler) :
+    expandMetal macros (fuel + 1) slots (.elem tag atts orig c sg ne none (some s) fs kids) =
+      expandMetal macros fuel slots (stripSlot filler) := by
+  simp [expandMetal, hf]
+
+/-- **`define-slot` without a filler** keeps its own content: it is an ordinary element -/
+theorem unfilled_slot_keeps_default (macros slots : List (Str × MNode)) (fuel : Nat) (tag : Str) (atts orig : List (Str × Str))
+    (c : Cmds) (sg ne : Bool) (s : Str) (fs : Option Str) (kids : List MNode) (hf : slotLookup slots s = none) :
+    expandMetal macros (fuel + 1) slots (.elem tag atts orig c sg ne none (some s) fs kids) =
+      [.elem tag atts orig c sg ne (expandMetalList macros fuel slots kids)] := by
+  simp [expandMetal, hf]
+
+/-- fillers belong to the nearest enclosing `use-macro`: a nested use site hides its own -/
+theorem fillers_stop_at_nested_use (tag : Str) (atts orig : List (Str × Str)) (c : Cmds) (sg ne : Bool) (m : Str)
+    (ds fs : Option Str) (kids : List MNode) :
+    fillers (.elem tag atts orig c sg ne (some m) ds fs kids) = [] := by
+  simp [fillers]
 
 /-! ### TALES -/
 
